@@ -734,6 +734,43 @@ func c16H5(r *Run) {
 			}
 		})
 	}
+	// the connection object is released on every exit: the deferred Close dominates every return that follows newConn
+	if hc := p.Func("kmipserver", "Server", "handleConn"); hc != nil {
+		var mk ssa.Instruction
+		var dfr *ssa.Defer
+		allInstrs(hc, func(in ssa.Instruction) {
+			if c, ok := in.(*ssa.Call); ok && callID(&c.Call).is(srvPath, "", "newConn") {
+				mk = c
+			}
+			if d, ok := in.(*ssa.Defer); ok && callID(&d.Call).is(srvPath, "conn", "Close") {
+				dfr = d
+			}
+		})
+		key := "kmipserver.Server.handleConn/conn-released"
+		switch {
+		case mk == nil || dfr == nil:
+			r.Unk("C16.H5", key, hc.Pos(), "newConn / deferred conn.Close not found in handleConn")
+		default:
+			bad := token.NoPos
+			for _, b := range hc.Blocks {
+				if len(b.Instrs) == 0 {
+					continue
+				}
+				ret, ok := b.Instrs[len(b.Instrs)-1].(*ssa.Return)
+				if !ok || !dominatesInstr(mk, ret) {
+					continue
+				}
+				if !dominatesInstr(dfr, ret) {
+					bad = ret.Pos()
+				}
+			}
+			if bad.IsValid() {
+				r.Bad("C16.H5", key, bad, "handleConn can return after newConn without the deferred conn.Close in force (e.g. when the connect hook fails): the connection's read/write goroutines and its socket outlive the connection goroutine, so Shutdown returns while they are still running and the client is never disconnected")
+			} else {
+				r.OK("C16.H5", key, dfr.Pos(), "conn.Close is deferred before any return that follows newConn")
+			}
+		}
+	}
 	// goroutines that announce themselves on a WaitGroup field of conn: `defer c.wg.Done()` at entry
 	donesOnConnWG := func(target string) bool {
 		var tf *ssa.Function
